@@ -12,6 +12,9 @@ Gate 2 (correspondence, `pvh threads` vs `pdriver threads`):
   prep   real circuit bootstrapping prepare_custom_multi_thread over (start, count, threads) vs
          Threads.execPrepare; each bit compared with a single-bit single-thread reference.
   sched  synthetic micro-step interleavings through the abstract machine (driver) vs a Python run.
+  wordmt the ten FheUint word operations `<op>_multi_thread` with `ScratchOwned::alloc(<op>_multi_thread_tmp_bytes(threads, ..))`
+         exactly, thread counts up to 64 (above the 32 / 1 output bits): no panic, raw limbs = 1 thread, word = u32
+         arithmetic; the queried byte count = Threads.mtTmpBytes (slot + max(threads*per, pack)).
 Property oracle: every slot of the work range written exactly once with its own item's single-thread
 result, everything else zeroed, for every admissible request — evaluated on the implementation's output.
 """
@@ -357,6 +360,63 @@ def run(ctx):
         ctx.cov["prep_outcomes"] = phist
         ctx.samples.append({"request": lines[1][:200], "implementation": outl[1][:300]})
 
+    # ------------------------------------------------------------------ F. word operations, scratch = the library's own multi-thread query
+    r = rng.fork()
+    wops = ["add", "sub", "sll", "srl", "sra", "and", "or", "xor", "slt", "sltu"]
+    t32 = [1, 2, 3, 5, 8, 16, 31, 32, 33, 40, 64] if quick else sorted(set(list(range(1, 41)) + [48, 63, 64]))
+    t1 = [1, 2, 3, 4, 8, 16] if quick else [1, 2, 3, 4, 5, 8, 16, 33, 64]
+    wreq = []
+    for oi, op in enumerate(wops):
+        one = op in ("slt", "sltu")
+        reps = 1 if quick else 3
+        for rep in range(reps):
+            ths = t1 if one else t32
+            a, b = c13.sample_pairs(r, 145)[144]
+            if rep == 0:
+                a, b = r.choice(c13.BOUNDARY), r.choice(c13.BOUNDARY)
+            wreq.append(("fft64avx" if (oi + rep) % 2 else "fft64ref", op, a, b, ths))
+    lines = [f"{k} wordmt be={be} op={op} a={a} b={b} threads={','.join(map(str, ths))}" for k, (be, op, a, b, ths) in enumerate(wreq)]
+    rc, outl, err = ctx.run_lines(binp, ["threads"], lines, timeout=3000)
+    if rc != 0 or len(outl) != len(lines):
+        broken.append(f"pvh threads wordmt failed rc={rc} {err[-300:]}")
+    else:
+        mlines = []
+        meta = []
+        for k, (be, op, a, b, ths) in enumerate(wreq):
+            it = outl[k].split()
+            d = kv(it)
+            want = c13.spec(op, a, b)
+            bad = None
+            if len(it) < 2 or it[1] != "ok":
+                bad = "request failed: " + outl[k][:120]
+            elif d.get("word") != str(want):
+                bad = f"single-thread word {d.get('word')} is not the u32 result {want}"
+            for th in ths:
+                ent = d.get(f"t{th}", "0:?")
+                nbytes, _, res = ent.partition(":")
+                ctx.evaluations += 1
+                ctx.count_case(("wordmt", be, op, th, res.split(":")[0]), nontrivial=True)
+                if res != "same" and bad is None:
+                    bad = (f"{op}_multi_thread with {th} threads and a scratch of exactly {op}_multi_thread_tmp_bytes({th}, ..) = {nbytes} bytes: "
+                           + ("panics (" + res + ")" if res.startswith("panic") else "raw limbs differ from the 1-thread result"))
+                mlines.append(f"{len(mlines)} threads mtbytes slot={d.get('slot', 0)} per={d.get('per', 0)} pack={d.get('pack', 0)} threads={th}")
+                meta.append((k, th, nbytes))
+            if bad:
+                ctx.oracle_failures += 1
+                witness = witness or {"kind": "wordmt", "line": lines[k], "implementation": outl[k][:400], "why": bad}
+                if len(broken) < 20:
+                    broken.append(f"wordmt: {lines[k][:120]}: {bad}")
+        rc2, mout, _ = ctx.run_lines(drv, [], mlines)
+        for j, (k, th, nbytes) in enumerate(meta):
+            mt = mout[j].split() if j < len(mout) else []
+            if len(mt) < 3 or mt[1] != "ok" or mt[2] != nbytes:
+                ctx.disagreements += 1
+                if len(broken) < 20:
+                    broken.append(f"wordmt bytes: {lines[k][:100]} threads={th} library query={nbytes} model={' '.join(mt[1:])} ({mlines[j]})")
+        ctx.cov["wordmt_requests"] = len(wreq)
+        ctx.cov["wordmt_runs"] = len(meta)
+        ctx.samples.append({"request": lines[0][:200], "implementation": outl[0][:300]})
+
     # ------------------------------------------------------------------ known findings (model agrees with the code; the property does not)
     if known_split:
         ctx.violation("Scratch::split_mut panics inside take_slice_aligned although available() >= n*len when len is not a multiple of 64: "
@@ -377,4 +437,4 @@ def run(ctx):
     return ctx.finish(rule="part: (back end, items class, dividing?, threads>items?, outcome, perturbation); eval: (back end, op, perturbation, "
                            "byte-lengths of a and b) — each eval case stands for one homomorphic evaluation per thread count (35), counted in "
                            "`evaluations`; mixed: (back end, workers); prep: (back end, type, start class, count class, threads>count?, scratch mode, "
-                           "outcome); sched: (accepted?, length class). non-trivial = at least one work item")
+                           "outcome); sched: (accepted?, length class); wordmt: (back end, op, threads, outcome). non-trivial = at least one work item")
